@@ -58,16 +58,16 @@ func (t *tree) Iterate(f NodeIterator) {
 func (t *tree) Insert(topic []byte, payload []byte) (bool, error) {
 	t.mtx.Lock()
 	defer t.mtx.Unlock()
-	return t.root.insert(format.Topic(topic), payload)
+	return t.root.insert(format.Levels(topic), payload)
 }
 func (t *tree) Remove(topic []byte) error {
 	t.mtx.Lock()
 	defer t.mtx.Unlock()
-	return t.root.remove(format.Topic(topic))
+	return t.root.remove(format.Levels(topic))
 }
 
 func (t *tree) Match(topic []byte, msg *[][]byte) error {
 	t.mtx.RLock()
 	defer t.mtx.RUnlock()
-	return t.root.match(format.Topic(topic), msg)
+	return t.root.match(format.Levels(topic), msg)
 }
